@@ -10,8 +10,8 @@ TEXT = {
          "assume_specification prelude for primitive integer methods; rewrite rules R1-R12; 128-bit paths not yet under contract (listed in evidence.not_covered)"),
  "C02": ("Verus proves every checked/saturating/wrapping/overflowing form of neg/abs/add/sub/mul_int/div_int of all ten families against one exact result R and the four policy specs; mul/div rest on the helper contracts of C01; Kani twins confirm the public forms on 8-bit layouts",
          "prelude specs of core integer methods (trusted, listed); signed `/` `%` axiom; mul/div wrapper forms verified by Kani on 8-bit layouts only"),
- "C03": ("Kani function contracts on to_fixed_helper and to_float_kind (all inputs x all 507 layouts, symbolic layout) plus loop-free full-domain harnesses of the comparison macro bodies on all pairs of 8-bit layouts, cross-width samples, all integer types, f32/f64 against the exact ordering",
-         "comparison macro bodies are proved for the instantiated type pairs only; Kani's model of Rust; oracles in machine integers written from the property"),
+ "C03": ("Verus proves fixed_cmp_fixed (all six operators) for all 100 family pairs with both Frac symbolic against the exact ordering, on top of the to_fixed_helper contract; Kani function contracts on to_fixed_helper and to_float_kind (all inputs x all 507 layouts, symbolic layout) plus loop-free full-domain harnesses of the comparison macro bodies on all pairs of 8-bit layouts, cross-width samples, all integer types, f32/f64 against the exact ordering",
+         "integer and float comparison macro bodies are proved for the instantiated type pairs only (Kani); to_fixed_helper contract is assumed in Verus and discharged by Kani; oracles in machine integers written from the property"),
  "C04": ("Kani function contracts on to_fixed_helper (all layouts) and loop-free full-domain harnesses of the conversion policies on all pairs of 8-bit layouts, 10 integer types, cross-width samples, From/LossyFrom instances",
          "policy glue proved for instantiated type pairs only; typenum bounds of From/LossyFrom are checked by instantiation, not symbolically"),
  "C05": ("Kani function contracts: from_to_float_helper equals an independent IEEE-754 RNE encoder bit for bit, and to_float_kind equals the exact rounding of the decoded float, for every f32/f64 bit pattern and every layout (symbolic)",
